@@ -37,7 +37,9 @@ func c15Schema() *resolved.Schema {
 		},
 		Actions: sast.Actions{
 			"view": sast.Action{AppliesTo: &sast.AppliesTo{Principals: []sast.EntityTypeRef{"User"}, Resources: []sast.EntityTypeRef{"Doc", "Folder"},
-				Context: sast.RecordType{"k": sast.Attribute{Type: sast.Long()}, "opt": sast.Attribute{Type: sast.String(), Optional: true}}}},
+				Context: sast.RecordType{"k": sast.Attribute{Type: sast.Long()}, "opt": sast.Attribute{Type: sast.String(), Optional: true},
+					"primary":  sast.Attribute{Type: sast.RecordType{"quota": sast.Attribute{Type: sast.Long()}, "extra": sast.Attribute{Type: sast.String()}}},
+					"fallback": sast.Attribute{Type: sast.RecordType{"quota": sast.Attribute{Type: sast.Long(), Optional: true}}}}}},
 		},
 	}
 	rs, err := resolved.Resolve(s)
@@ -59,7 +61,7 @@ var (
 // payloads and forked presence of everything optional.
 func c15Env(resourceIsFolder bool) (eval.Env, types.Request, types.EntityMap) {
 	// presence scenario: everything optional present, nothing present, or exactly one thing absent
-	nOpt := 10
+	nOpt := 11
 	nScen := 2 // quick: everything optional present / nothing present
 	if vrt.Thorough() {
 		nScen = nOpt + 2 // ... plus exactly one thing absent
@@ -113,7 +115,12 @@ func c15Env(resourceIsFolder bool) (eval.Env, types.Request, types.EntityMap) {
 		docAttrs["size"] = types.Long(vrt.Int64("d.size"))
 	}
 	store[c15D] = types.Entity{UID: c15D, Parents: types.NewEntityUIDSet(c15F), Attributes: types.NewRecord(docAttrs)}
-	ctx := types.RecordMap{"k": types.Long(vrt.Int64("context.k"))}
+	ctx := types.RecordMap{"k": types.Long(vrt.Int64("context.k")), "primary": types.NewRecord(types.RecordMap{"quota": types.Long(vrt.Int64("context.primary.quota")), "extra": types.String("x")})}
+	fb := types.RecordMap{}
+	if present("context.fallback.quota-present") {
+		fb["quota"] = types.Long(vrt.Int64("context.fallback.quota"))
+	}
+	ctx["fallback"] = types.NewRecord(fb)
 	if present("context.opt-present") {
 		ctx["opt"] = types.String("o")
 	}
@@ -276,6 +283,45 @@ func VerifC15_GuardedUnary() {
 		n = ast.Not(g).And(x.Equal(x)) // nor through !
 	case 3:
 		n = ast.IfThenElse(g, ast.True(), x.Equal(x)) // nor into the else branch
+	}
+	c15Check(v, n, mode)
+}
+
+// Joins: the least upper bound of two record / entity types (if-then-else
+// branches) must only expose what both sides guarantee.
+func VerifC15_Joins() {
+	v, mode := c15Validator()
+	recs := []func() ast.Node{
+		func() ast.Node { return ast.Context().Access("primary") },
+		func() ast.Node { return ast.Context().Access("fallback") },
+		func() ast.Node { return ast.Principal().Access("nested") },
+		func() ast.Node { return ast.Record(ast.Pairs{{Key: "quota", Value: ast.Long(1)}}) },
+		func() ast.Node { return ast.Principal() },
+		func() ast.Node { return ast.Resource() },
+		func() ast.Node { return ast.Principal().Access("friend") },
+	}
+	conds := []func() ast.Node{
+		func() ast.Node { return ast.Context().Access("k").LessThan(ast.Long(0)) },
+		func() ast.Node { return ast.Principal().Access("flag") },
+	}
+	attrs := []types.String{"quota", "extra", "a", "b", "size", "age", "owner"}
+	if !vrt.Thorough() {
+		attrs = []types.String{"quota", "extra", "size", "age"}
+		conds = conds[:1]
+	}
+	c := conds[vrt.Choice("cond", len(conds))]()
+	a := recs[vrt.Choice("then", len(recs))]()
+	b := recs[vrt.Choice("else", len(recs))]()
+	attr := attrs[vrt.Choice("attr", len(attrs))]
+	joined := ast.IfThenElse(c, a, b)
+	var n ast.Node
+	switch vrt.Choice("use", 3) {
+	case 0:
+		n = joined.Access(attr).Equal(joined.Access(attr))
+	case 1:
+		n = joined.Has(attr).And(joined.Access(attr).Equal(joined.Access(attr)))
+	case 2:
+		n = ast.Set(a, b).Contains(a).And(joined.Has(attr))
 	}
 	c15Check(v, n, mode)
 }
